@@ -21,7 +21,9 @@
 (***************************************************************************)
 EXTENDS MpmcObs, Json
 
-CONSTANTS SeqMode, MaxInflight, MaxH, WithStream, WithCancel
+CONSTANTS SeqMode, MaxInflight, MaxH, WithStream, WithCancel,
+          SplitDrop   \* TRUE: the drop of a last handle is three separately scheduled steps, as in the code:
+                      \* fetch_sub (Dec*), close() (LateClose*), clear() (LateClear); model-level only
 
 VARIABLES closed, buf,
           rst, rfin, rtask, rq,     \* receive futures: PollState, terminated flag, stored waker, queue
@@ -47,7 +49,7 @@ View == [closed |-> closed, buflen |-> Len(buf), buf |-> buf,
 
 Consts == [NS |-> NS, NR |-> NR, Cap |-> Cap, Wk |-> SetToSortedSeq({IF w = "A" THEN 1 ELSE 2 : w \in Wk}),
            MaxV |-> MaxV, Shared |-> Shared, SeqMode |-> SeqMode, MaxInflight |-> MaxInflight, MaxH |-> MaxH,
-           WithStream |-> WithStream, WithCancel |-> WithCancel]
+           WithStream |-> WithStream, WithCancel |-> WithCancel, SplitDrop |-> SplitDrop]
 
 Init == /\ closed = FALSE /\ buf = <<>>
         /\ rst = [r \in R |-> "none"] /\ rfin = [r \in R |-> FALSE] /\ rtask = [r \in R |-> "-"] /\ rq = <<>>
@@ -296,7 +298,7 @@ CloneSender ==
   /\ Emit([op |-> "clone_sender"])
 
 DropSender ==
-  /\ Shared /\ senders > 0
+  /\ Shared /\ ~SplitDrop /\ senders > 0
   /\ senders' = senders - 1
   /\ IF senders = 1 /\ ~closed
      THEN LET c == CloseCore IN
@@ -315,13 +317,46 @@ CloneReceiver ==
 
 DropReceiver ==
   \* a plain receiver handle (the stream owns one of the counted handles)
-  /\ Shared /\ PlainRecv > 0
+  /\ Shared /\ ~SplitDrop /\ PlainRecv > 0
   /\ LET h == DropRecvHandle IN
      /\ closed' = h.closed /\ buf' = h.buf /\ rst' = h.rst /\ rtask' = h.rtask /\ rq' = h.rq
      /\ sst' = h.sst /\ stask' = h.stask /\ sq' = h.sq
      /\ receivers' = receivers - 1
      /\ UNCHANGED <<rfin, sfin, sval, xs, senders, dead>>
      /\ Emit([op |-> "drop_receiver", wakes |-> h.wakes, dropped |-> h.dropped])
+
+(* ----- the last-handle drop as the code really performs it ----------------
+   GenericSender::drop     : fetch_sub; if it was the last: close()
+   GenericReceiver::drop   : fetch_sub; if it was the last: close(); then lock().clear()
+   Between the steps other threads run.  A pending step is encoded in the count:
+   senders = -1: close() pending; receivers = -1: close() pending, -2: clear() pending.      *)
+DecSender ==
+  /\ Shared /\ SplitDrop /\ senders > 0
+  /\ senders' = IF senders = 1 THEN 0 - 1 ELSE senders - 1
+  /\ UNCHANGED <<closed, buf, rst, rfin, rtask, rq, sst, sfin, stask, sval, sq, xs, receivers, dead>>
+  /\ Emit([op |-> "dec_sender"])
+DecReceiver ==
+  /\ Shared /\ SplitDrop /\ receivers > 0 /\ xs = "none"
+  /\ receivers' = IF receivers = 1 THEN 0 - 1 ELSE receivers - 1
+  /\ UNCHANGED <<closed, buf, rst, rfin, rtask, rq, sst, sfin, stask, sval, sq, xs, senders, dead>>
+  /\ Emit([op |-> "dec_receiver"])
+LateClose(side) ==
+  /\ Shared /\ SplitDrop
+  /\ IF side = "s" THEN senders = 0 - 1 /\ senders' = 0 /\ UNCHANGED receivers
+                   ELSE receivers = 0 - 1 /\ receivers' = 0 - 2 /\ UNCHANGED senders
+  /\ IF closed
+     THEN /\ UNCHANGED <<closed, buf, rst, rfin, rtask, rq, sst, sfin, stask, sval, sq, xs, dead>>
+          /\ Emit([op |-> "late_close", wakes |-> <<>>])
+     ELSE LET c == CloseCore IN
+          /\ closed' = TRUE /\ rst' = c.rst /\ rtask' = c.rtask /\ rq' = <<>>
+          /\ sst' = c.sst /\ stask' = c.stask /\ sq' = <<>>
+          /\ UNCHANGED <<buf, rfin, sfin, sval, xs, dead>>
+          /\ Emit([op |-> "late_close", wakes |-> c.wakes])
+LateClear ==
+  /\ Shared /\ SplitDrop /\ receivers = 0 - 2
+  /\ receivers' = 0 /\ buf' = <<>>
+  /\ UNCHANGED <<closed, rst, rfin, rtask, rq, sst, sfin, stask, sval, sq, xs, senders, dead>>
+  /\ Emit([op |-> "late_clear", dropped |-> buf])
 
 Destroy ==
   /\ \A s \in S : sst[s] = "none" /\ \A r \in R : rst[r] = "none" /\ xs = "none"
@@ -340,6 +375,7 @@ Ops == \/ \E s \in S : CreateSend(s) \/ DropSend(s) \/ PollSendDone(s) \/ Cancel
        \/ TrySend \/ TryRecv \/ Close
        \/ CreateStream \/ DropStream \/ \E w \in Wk : StreamNext(w)
        \/ CloneSender \/ DropSender \/ CloneReceiver \/ DropReceiver
+       \/ DecSender \/ DecReceiver \/ LateClose("s") \/ LateClose("r") \/ LateClear
        \/ Destroy
 
 Next == /\ ~dead
@@ -366,7 +402,8 @@ QueueOK == /\ NoDup(rq) /\ NoDup(sq) /\ NoDup(buf)
            /\ (Len(buf) < Cap) => sq = <<>>
            /\ closed => (rq = <<>> /\ sq = <<>>)
            /\ (buf # <<>> \/ sq # <<>>) => \A r \in R : rst[r] # "reg" \/ TRUE
-Refines == /\ closed = oClosed /\ senders = oSenders /\ receivers = oReceivers
+NonNeg(x) == IF x < 0 THEN 0 ELSE x
+Refines == /\ closed = oClosed /\ NonNeg(senders) = oSenders /\ NonNeg(receivers) = oReceivers
            /\ oIn = InUse \ {0}
            /\ ~closed => oOrder = buf \o [i \in 1..Len(sq) |-> sval[sq[i]]]
            /\ closed => oOrder = buf
